@@ -86,6 +86,13 @@ MUTANTS = {
     "c04-len-minus1": ("pulsarbat/transforms/transforms.py", "np.broadcast_to(ft * len(x), x.shape[1:])", "np.broadcast_to(ft * (len(x) - 1), x.shape[1:])", ["C04"]),
     "c04-zero-before-shift": ("pulsarbat/transforms/transforms.py", "    x = np.fft.fftshift(pb.fft.fft(z.data * ph, axis=0), axes=(0,))", "    x = np.array(pb.fft.fft(z.data * ph, axis=0))", ["C04"]),
     "c04-sign": ("pulsarbat/transforms/transforms.py", "ph = np.exp(2j * np.pi * ft * n[ix]).astype(z.dtype)", "ph = np.exp(-2j * np.pi * ft * n[ix]).astype(z.dtype)", ["C04"]),
+    "c05-const": ("pulsarbat/transforms/dedispersion.py", "/ u.pc / 2.41e-4", "/ u.pc / 2.410331e-4", ["C05"]),
+    "c05-minus-fftfreq": ("pulsarbat/transforms/dedispersion.py", "f = center_freq.to(u.Hz) + np.fft.fftfreq(N, dt).to(u.Hz)", "f = center_freq.to(u.Hz) - np.fft.fftfreq(N, dt).to(u.Hz)", ["C05"]),
+    "c05-wrong-law": ("pulsarbat/transforms/dedispersion.py", "phase = coeff * f * u.cycle * (1 / ref_freq - 1 / f) ** 2", "phase = coeff * ref_freq * u.cycle * (1 / ref_freq - 1 / f) ** 2", ["C05"]),
+    "c05-conj": ("pulsarbat/transforms/dedispersion.py", "tf = np.exp(-1j * phase.to_value(u.rad))", "tf = np.exp(+1j * phase.to_value(u.rad))", ["C05"]),
+    "c05-crop-floor": ("pulsarbat/transforms/dedispersion.py", "start = math.ceil(-min(0, delay_top, delay_bot))", "start = math.floor(-min(0, delay_top, delay_bot))", ["C05"]),
+    "c05-stop-off1": ("pulsarbat/transforms/dedispersion.py", "stop = x.shape[0] - math.ceil(+max(0, delay_top, delay_bot))", "stop = x.shape[0] - math.ceil(+max(0, delay_top, delay_bot)) + (1 if delay_top > 3 else 0)", ["C05"]),
+    "c05-chirp-ignored": ("pulsarbat/transforms/dedispersion.py", "    if chirp is None:\n        chirp = DM.chirp_from_signal(z, ref_freq=ref_freq)", "    if chirp is None or True:\n        chirp = DM.chirp_from_signal(z, ref_freq=z.center_freq)", ["C05"]),
 }
 
 # behaviour-preserving edits: no check may fire
